@@ -35,7 +35,7 @@ func (C15) Explore(x *kernel.Explorer, seed uint64) {
 	r := kernel.NewRNG(seed, 0xc15)
 	for i := 0; i < 4 && !x.Expired(); i++ {
 		plan := &kernel.Plan{Prop: "C15", Seed: kernel.Mix(seed, uint64(i)), Swarm: map[string]int64{
-			"chunk": int64(r.Intn(4)), "rot_pair": int64(r.Intn(4)), "rot_sym": int64(r.Intn(4)), "binary": int64(r.Intn(2))}}
+			"chunk": int64(r.Intn(4)), "rot_pair": int64(r.Intn(4)), "rot_sym": int64(r.Intn(4)), "binary": int64(r.Intn(2)), "mysql": int64(r.Intn(3) / 2), "depeof": int64(r.Intn(2))}}
 		n := 1 + r.Intn(6)
 		for j := 0; j < n; j++ {
 			// A: kind (0 asym poison,1 sym poison,2 random,3 client envelope,4 truncated poison,5 bit-flipped poison),
@@ -72,7 +72,10 @@ func (C15) Run(t *testing.T, plan *kernel.Plan, keepLog bool) *kernel.Result {
 		rng := kernel.NewRNG(plan.Seed, 0xd15c)
 		cb := &c15Callback{cur: &SessionRunRef{}}
 		cols := []colKind{{Name: "c1", Envelope: "acrablock"}}
-		pw, err := NewPgWorld(w, rng, PgWorldConfig{SchemaYAML: schemaYAML(cols), Clients: []string{owner}, ChunkMode: int(plan.Sw("chunk")), PoisonCalls: cb})
+		mysql := plan.Sw("mysql") == 1
+		dbms := map[bool]string{false: "pg", true: "mysql"}[mysql]
+		pw, err := NewPgWorld(w, rng, PgWorldConfig{SchemaYAML: schemaYAML(cols), Clients: []string{owner}, ChunkMode: int(plan.Sw("chunk")), PoisonCalls: cb,
+			MySQL: mysql, MyDeprecateEOF: plan.Sw("depeof") == 1})
 		if err != nil {
 			w.Violate("C15", "world-builds", "pg", err.Error())
 			return
@@ -179,6 +182,9 @@ func (C15) Run(t *testing.T, plan *kernel.Plan, keepLog bool) *kernel.Result {
 			st := Stmt{SQL: fmt.Sprintf("SELECT id, plain, %s FROM %s WHERE id = %d", col, c.table, c.id)}
 			if plan.Sw("binary") == 1 {
 				st.Extended, st.ResultFormats = true, []int16{1}
+				if mysql {
+					st = Stmt{SQL: fmt.Sprintf("SELECT id, plain, %s FROM %s WHERE id = ?", col, c.table), Extended: true, Args: []interface{}{int64(c.id)}}
+				}
 			}
 			run := pw.RunSession(owner, []Stmt{st})
 			if w.Res.Cut {
@@ -189,7 +195,7 @@ func (C15) Run(t *testing.T, plan *kernel.Plan, keepLog bool) *kernel.Result {
 			}
 			pw.Panics = nil
 			calls := cb.calls[before:]
-			site := "pg/" + c.desc
+			site := dbms + "/" + c.desc
 			if c.poison {
 				if len(calls) == 0 {
 					w.Violate("C15", "poison-record-raises-alarm", site, fmt.Sprintf("a poison record (%s) was read and no callback ran", c.desc))
